@@ -51,8 +51,38 @@ func verifPctLookalike(v string) bool {
 	return false
 }
 
-func verifCaptureSingle(n int) {
-	v := nondetString("v", n)
+// verifValue draws a wildcard value from a family of templates.
+func verifValue(id string, tmpl int) string {
+	switch tmpl {
+	case 0:
+		return nondetString(id, 1)
+	case 1:
+		return nondetString(id, 2)
+	case 2:
+		return "%" + nondetString(id, 2)
+	case 3:
+		return nondetString(id+"a", 1) + "%" + nondetString(id+"b", 1) + "F"
+	case 4:
+		return nondetString(id, 3)
+	default:
+		return nondetString(id, 4)
+	}
+}
+
+func verifCheckCapture(tag string, got map[string]string, name, v string) {
+	g, ok := got[name]
+	verifObserve(tag+"got", g)
+	verifAssert(tag+"var-present", ok)
+	if verifPctLookalike(v) {
+		verifAssert(tag+"capture-inverse[pct-lookalike]", g == v)
+	} else {
+		verifAssert(tag+"capture-inverse", g == v)
+	}
+}
+
+// /p/{x}
+func verifCaptureSingle(tmpls int) {
+	v := verifValue("v", nondetChoice("tmpl", tmpls))
 	verifAssume(v != "")
 	target := "/p/" + url.PathEscape(v)
 	hit, _, parsed := verifServe([][2]string{{"GET", "/p/{x}"}}, "GET", target)
@@ -64,18 +94,151 @@ func verifCaptureSingle(n int) {
 	if hit.route != 0 {
 		return
 	}
-	got, ok := hit.vars["x"]
-	verifObserve("got", got)
-	verifAssert("var-present", ok && len(hit.vars) == 1)
-	if verifPctLookalike(v) {
-		verifAssert("capture-inverse[pct-lookalike]", got == v)
-	} else {
-		verifAssert("capture-inverse", got == v)
-	}
+	verifAssert("one-var", len(hit.vars) == 1)
+	verifCheckCapture("", hit.vars, "x", v)
 	verifAssert("resolved-pattern", hit.pattern == "/p/{x}")
+	verifReach("single-done")
 }
 
-func VerifC16_CaptureSingle1() { verifCaptureSingle(1) }
-func VerifC16_CaptureSingle2() { verifCaptureSingle(2) }
-func VerifC16_CaptureSingle3() { verifCaptureSingle(3) }
-func VerifC16T_CaptureSingle4() { verifCaptureSingle(4) }
+func VerifC16_CaptureSingle()  { verifCaptureSingle(4) }
+func VerifC16T_CaptureSingle3() { verifCaptureSingle(5) }
+
+// /p/{x}/q and /{x}/{y}: wildcard in the middle, two wildcards
+func VerifC16_CaptureMid() {
+	v := verifValue("v", nondetChoice("tmpl", 2)*2) // templates 0 and 2
+	verifAssume(v != "")
+	hit, _, parsed := verifServe([][2]string{{"GET", "/p/{x}/q"}}, "GET", "/p/"+url.PathEscape(v)+"/q")
+	verifAssert("mid:target-parses", parsed)
+	if !parsed {
+		return
+	}
+	verifAssert("mid:routed", hit.route == 0)
+	if hit.route != 0 {
+		return
+	}
+	verifCheckCapture("mid:", hit.vars, "x", v)
+	verifAssert("mid:resolved-pattern", hit.pattern == "/p/{x}/q")
+}
+
+func VerifC16_CaptureTwo() {
+	var x, y string
+	switch nondetChoice("shape", 3) {
+	case 0:
+		x, y = nondetString("x", 1), nondetString("y", 1)
+	case 1:
+		x, y = verifValue("x", 2), "k"
+	default:
+		x, y = "k", verifValue("y", 2)
+	}
+	verifAssume(x != "" && y != "")
+	hit, _, parsed := verifServe([][2]string{{"GET", "/{x}/{y}"}}, "GET", "/"+url.PathEscape(x)+"/"+url.PathEscape(y))
+	verifAssert("two:target-parses", parsed)
+	if !parsed {
+		return
+	}
+	verifAssert("two:routed", hit.route == 0)
+	if hit.route != 0 {
+		return
+	}
+	verifAssert("two:two-vars", len(hit.vars) == 2)
+	verifCheckCapture("two:x:", hit.vars, "x", x)
+	verifCheckCapture("two:y:", hit.vars, "y", y)
+	verifAssert("two:resolved-pattern", hit.pattern == "/{x}/{y}")
+}
+
+// trailing catch-all: the client escapes each segment and joins with '/'
+func verifCatchAll(pattern, prefix string) {
+	var a string
+	two := false
+	switch nondetChoice("shape", 3) {
+	case 0:
+		a = verifValue("a", 0)
+	case 1:
+		a = verifValue("a", 2)
+	default:
+		a, two = verifValue("a", 0), true
+	}
+	var v, target string
+	if two {
+		b := nondetString("b", 1)
+		v = a + "/" + b
+		target = prefix + url.PathEscape(a) + "/" + url.PathEscape(b)
+	} else {
+		v = a
+		target = prefix + url.PathEscape(a)
+	}
+	hit, _, parsed := verifServe([][2]string{{"GET", pattern}}, "GET", target)
+	verifAssert("catchall:target-parses", parsed)
+	if !parsed {
+		return
+	}
+	verifAssert("catchall:routed", hit.route == 0)
+	if hit.route != 0 {
+		return
+	}
+	verifAssert("catchall:one-var", len(hit.vars) == 1)
+	// a '/' inside a segment value is escaped by the client and must come back
+	verifCheckCapture("catchall:", hit.vars, "x", v)
+	verifAssert("catchall:resolved-pattern", hit.pattern == pattern)
+}
+
+func VerifC16_CatchAll()     { verifCatchAll("/p/{*x}", "/p/") }
+func VerifC16_RootCatchAll() { verifCatchAll("/{*x}", "/") }
+
+// dispatch: two routes sharing a prefix, two methods on one pattern
+func VerifC16_DispatchSharedPrefix() {
+	v := nondetString("v", 1)
+	verifAssume(v != "")
+	long := nondetBool("long")
+	target := "/p/" + url.PathEscape(v)
+	if long {
+		target += "/q"
+	}
+	routes := [][2]string{{"GET", "/p/{x}"}, {"GET", "/p/{y}/q"}, {"GET", "/p/lit"}}
+	hit, _, parsed := verifServe(routes, "GET", target)
+	verifAssert("dispatch:parses", parsed)
+	if !parsed {
+		return
+	}
+	switch {
+	case long:
+		verifAssert("dispatch:long-route", hit.route == 1 && hit.pattern == "/p/{y}/q")
+		if hit.route == 1 {
+			verifCheckCapture("dispatch:long:", hit.vars, "y", v)
+		}
+	case v == "lit":
+		verifAssert("dispatch:literal-wins", hit.route == 2)
+	default:
+		verifAssert("dispatch:short-route", hit.route == 0 && hit.pattern == "/p/{x}")
+		if hit.route == 0 {
+			verifCheckCapture("dispatch:short:", hit.vars, "x", v)
+		}
+	}
+}
+
+func VerifC16_DispatchTwoMethods() {
+	v := nondetString("v", 1)
+	verifAssume(v != "")
+	methods := []string{"GET", "POST", "DELETE"}
+	mi := nondetChoice("method", 3)
+	routes := [][2]string{{"GET", "/a/{*g}"}, {"POST", "/a/{*p}"}}
+	hit, w, parsed := verifServe(routes, methods[mi], "/a/"+url.PathEscape(v))
+	verifAssert("methods:parses", parsed)
+	if !parsed {
+		return
+	}
+	switch mi {
+	case 0:
+		verifAssert("methods:get-route", hit.route == 0 && hit.pattern == "/a/{*g}")
+		if hit.route == 0 {
+			verifCheckCapture("methods:get:", hit.vars, "g", v)
+		}
+	case 1:
+		verifAssert("methods:post-route", hit.route == 1 && hit.pattern == "/a/{*p}")
+		if hit.route == 1 {
+			verifCheckCapture("methods:post:", hit.vars, "p", v)
+		}
+	default:
+		verifAssert("methods:other-method-not-dispatched", hit.route == -1 && w.status == 405)
+	}
+}
